@@ -4,7 +4,9 @@ Worker threads are real `threading.Thread`s, but exactly one runs at a time: eac
 traces its own execution (`sys.settrace`, opcode events) inside cacheutils.py and hands
 control back to the scheduler before EVERY bytecode instruction executed there.  The
 schedule is the list of thread choices made at those points, so every pre-emption point
-between bytecode instructions inside cacheutils is reachable and every run is replayable.
+between bytecode instructions inside cacheutils is reachable and every run is replayable.  Python-level callbacks
+reached from C code under a cacheutils frame (`__hash__` / `__eq__` of keys and values) are scheduling points too
+(`user_point`).
 
 `cacheutils.RLock` is replaced (for caches created through `run`) by `SLock`, a
 scheduler-aware re-entrant lock that records the order of OUTERMOST acquisitions (the
@@ -82,6 +84,40 @@ class SLock:
         self.__exit__()
 
 
+def user_point():
+    """A scheduling point INSIDE user code that C code calls back into - a key's `__hash__` / `__eq__`, a value's
+    `__eq__` - while a method of the SHARED cache is on the calling thread's stack (`dict.__eq__`, `dict.update`,
+    a subscript, a `**kwargs` lookup … are single bytecode instructions of cacheutils, but the interpreter can switch
+    threads inside such a Python-level callback).  The harness's key / value classes call this at the start and at the
+    end of their dunder methods; outside a scheduled run, on the main thread, or under a method of a thread-private
+    cache it does nothing."""
+    s = SLock.sched
+    if s is None or not s.live:
+        return
+    tid = getattr(threading.current_thread(), 'bv_tid', None)
+    if tid is None or s.done[tid] or s.in_user[tid]:
+        return
+    names = []
+    f = sys._getframe(1)
+    while f is not None and len(names) < 8:
+        if f.f_code.co_filename == s.cu_file:
+            if not names:
+                slf = f.f_locals.get('self')
+                if slf is not None and slf is not s.cache and isinstance(slf, s.base_cls):
+                    return      # called back from a method of ANOTHER cache (a private copy / update() argument)
+            names.append(f.f_code.co_name)
+        f = f.f_back
+    if not names:
+        return                  # no cache operation in progress on this thread
+    s.in_user[tid] = True
+    try:
+        s.where[tid] = names
+        s.user_points += 1
+        s.yield_point(tid)
+    finally:
+        s.in_user[tid] = False
+
+
 class Sched:
     def __init__(self, nthreads, choose, cu_file, max_steps=200000):
         self.n = nthreads
@@ -107,6 +143,10 @@ class Sched:
         self.where = [None] * nthreads  # per thread: names of the cacheutils frames on its stack at its pending
         #                                 instruction (innermost first); lets a chooser pre-empt INSIDE a given method
         self.track_stack = False
+        self.frozen = False             # step limit hit: the unfinished workers stay parked for good (see dispatch)
+        self.live = False               # True while the workers of this run exist (user_point() is a no-op otherwise)
+        self.in_user = [False] * nthreads
+        self.user_points = 0            # scheduling points taken inside user-level __hash__ / __eq__ callbacks
         self.state_funcs = STATE_FUNCS  # helpers that must only run under the lock (the translator's list, if given)
 
     # The baton: exactly one worker runs at a time.  At every scheduling point the RUNNING worker itself asks the
@@ -134,6 +174,10 @@ class Sched:
             self._wake_one(me)
 
     def dispatch(self, tid, finished=False):
+        if self.frozen:
+            if finished:
+                return
+            threading.Event().wait()        # (not reached: nobody wakes a worker of a frozen run)
         if self.abort:
             if finished:
                 self._wake_one(tid)
@@ -148,11 +192,21 @@ class Sched:
                 return
             raise StepLimit()
         if self.step >= self.max_steps:
+            # a run that does not end (e.g. an unlocked walk over a half-spliced ring that never comes back to the
+            # anchor).  The workers are NOT unwound: raising out of a trace function inside the endless loop makes
+            # CPython 3.12.1 switch tracing off under a live instrumented frame and crash.  Every unfinished worker
+            # stays parked where it is for good (daemon threads, still tracing - so nothing is ever de-instrumented);
+            # the main thread is told that the run is over.
             self.step_limit = True
-            self._abort_all(tid, running=not finished)
+            self.abort = True
+            self.frozen = True
+            for i in range(self.n):
+                if not self.done[i] and i != tid:
+                    self.main.release()
             if finished:
                 return
-            raise StepLimit()
+            self.main.release()
+            threading.Event().wait()        # this worker parks here for the rest of the process
         nxt = self.choose(self.step, runnable)
         if nxt not in runnable:
             nxt = runnable[0]
@@ -247,6 +301,7 @@ def run(cu, programs, choose, make_cache, max_steps=200000, state_funcs=None):
                 s.main.release()
 
         ths = []
+        s.live = True
         for i in range(n):
             t = threading.Thread(target=worker, args=(i,), daemon=True)
             t.bv_tid = i
@@ -262,12 +317,15 @@ def run(cu, programs, choose, make_cache, max_steps=200000, state_funcs=None):
             s._abort_all(None)
             for _ in range(n):
                 s.main.acquire(timeout=5)
-        for t in ths:
-            t.join(timeout=5)
-        stuck = stuck or any(t.is_alive() for t in ths)
+        if not s.frozen:
+            for t in ths:
+                t.join(timeout=5)
+            stuck = stuck or any(t.is_alive() for t in ths)
     finally:
+        s.live = False
         cu.RLock = old_rlock
     return {'cache': cache, 'results': results, 'steps': s.step, 'schedule': s.choices,
             'acquire_log': s.acquire_log, 'lockset_violations': s.lockset_violations,
             'deadlock': s.deadlock, 'step_limit': s.step_limit, 'op_log': op_log,
-            'stuck': stuck, 'foreign_acquires': s.foreign_acquires}
+            'stuck': stuck, 'foreign_acquires': s.foreign_acquires,
+            'user_points': s.user_points}
